@@ -54,12 +54,86 @@ REG.contract(
 # ---------------------------------------------------------------------------- the constraint table
 INFO_FIELDS = ["_station_ids_dict", "max_pilot_signals", "min_pilot_signals", "allowable_rates", "is_continuous"]
 
+# what a registered station advertises, seen through a base-class reference (dynamic dispatch): the value each property returns is named by an
+# uninterpreted function of the EVSE object.  The three concrete classes' properties are verified against their own definitions in C13 (contracts/evse.py);
+# here only "the network's cache holds whatever the station's own property returns" is at stake.
+ADV_MAX = z3.Function("evse_advertised_max_rate", RefSort, z3.RealSort())
+ADV_MIN = z3.Function("evse_advertised_min_rate", RefSort, z3.RealSort())
+ADV_LV = z3.Function("evse_advertised_levels", RefSort, z3.ArraySort(z3.IntSort(), z3.RealSort()))
+ADV_LVN = z3.Function("evse_advertised_level_count", RefSort, z3.IntSort())
+EVSEM = "acnportal.acnsim.models.evse."
+_DISPATCH = ("dynamic dispatch on a registered station: the value the station's own property returns, as a function of the EVSE object (A-OWN: EVSE "
+             "parameters are not mutated after registration); EVSE / DeadbandEVSE / FiniteRatesEVSE implement it and are verified in C13")
+REG.contract(EVSEM + "BaseEVSE.max_rate", params=dict(self=Ref("BaseEVSE")), ret=Real, modifies=[], assumed=_DISPATCH,
+             ensures=[C("advertised", lambda old, new, ret: ret == ADV_MAX(old.self.ref))],
+             iface=[C("advertised", lambda old, new, ret: ret == ADV_MAX(old.self.ref))])
+REG.contract(EVSEM + "BaseEVSE.min_rate", params=dict(self=Ref("BaseEVSE")), ret=Real, modifies=[], assumed=_DISPATCH,
+             ensures=[C("advertised", lambda old, new, ret: ret == ADV_MIN(old.self.ref))],
+             iface=[C("advertised", lambda old, new, ret: ret == ADV_MIN(old.self.ref))])
+REG.contract(EVSEM + "BaseEVSE.allowable_pilot_signals", params=dict(self=Ref("BaseEVSE")), ret=Seq(Real), modifies=[], assumed=_DISPATCH,
+             ensures=[C("advertised", lambda old, new, ret: And(ret.len == ADV_LVN(old.self.ref), ret.v.arrs[0] == ADV_LV(old.self.ref), ret.len >= 0))],
+             iface=[C("advertised", lambda old, new, ret: And(ret.len == ADV_LVN(old.self.ref), ret.v.arrs[0] == ADV_LV(old.self.ref), ret.len >= 0))])
+
+
+def info_store_is_truthful(s, net, upto=None, allowable=None, flags=None):
+    """C05 / C07: the cached per-station descriptions handed to schedulers are what each registered station itself advertises - entry i belongs to the
+    i-th registered station: its max / min rate, its allowable pilot list, its continuity flag; the index dictionary inverts the registration order"""
+    n = net._EVSEs.keys.len
+    i = z3.Int("i!uis")
+    sid = ty.sel(net._EVSEs.keys.v.arrs[0], i)
+    ev = z3.Select(net._EVSEs._v.arrs[0], sid)
+    hi = n if upto is None else upto
+    ar = net.allowable_rates if allowable is None else allowable
+    fl = net.is_continuous if flags is None else flags
+    rng = z3.And(i >= 0, i < hi)
+    cont = s.field_of(ev, "BaseEVSE", "is_continuous")
+    out = [
+        ("C05.one_allowable_list_and_flag_per_station", And(ar.len == hi, fl.len == hi)),
+        ("C05.allowable_rates_are_each_stations_advertised_list",
+         FA([i], z3.Implies(rng, z3.And(z3.Select(ar.v.arrs[1], i) == ADV_LVN(ev), z3.Select(ar.v.arrs[0], i) == ADV_LV(ev))), patterns=[sid])),
+        ("C05.continuity_flags_are_each_stations_flag", FA([i], z3.Implies(rng, ty.sel(fl.v.arrs[0], i) == cont), patterns=[sid])),
+    ]
+    if upto is None:
+        d = net._station_ids_dict._v
+        out += [
+            ("C05.one_max_and_min_per_station", And(net.max_pilot_signals.len == n, net.min_pilot_signals.len == n)),
+            ("C05.max_pilots_are_each_stations_advertised_maximum", FA([i], z3.Implies(rng, ty.sel(net.max_pilot_signals.v.arrs[0], i) == ADV_MAX(ev)), patterns=[sid])),
+            ("C05.min_pilots_are_each_stations_advertised_minimum", FA([i], z3.Implies(rng, ty.sel(net.min_pilot_signals.v.arrs[0], i) == ADV_MIN(ev)), patterns=[sid])),
+            ("C05.index_dictionary_inverts_the_registration_order", FA([i], z3.Implies(rng, z3.And(z3.Select(d.dom, sid), z3.Select(d.arrs[0], sid) == i)), patterns=[sid])),
+        ]
+    return out
+
+
+def _same_five(new, ret):
+    """the returned tuple is the five fields just stored"""
+    net = new.self
+    d, mx, mn, ar, fl = ret[0], ret[1], ret[2], ret[3], ret[4]
+    return And(d._v.dom == net._station_ids_dict._v.dom, d._v.arrs[0] == net._station_ids_dict._v.arrs[0],
+               mx.len == net.max_pilot_signals.len, mx.v.arrs[0] == net.max_pilot_signals.v.arrs[0],
+               mn.len == net.min_pilot_signals.len, mn.v.arrs[0] == net.min_pilot_signals.v.arrs[0],
+               ar.len == net.allowable_rates.len, ar.v.arrs[0] == net.allowable_rates.v.arrs[0], ar.v.arrs[1] == net.allowable_rates.v.arrs[1],
+               fl.len == net.is_continuous.len, fl.v.arrs[0] == net.is_continuous.v.arrs[0])
+
+
+def registry_live(s, net):
+    """the ordered key list of the station registry is exactly its domain and every registered EVSE is a live object"""
+    from pyvc import maplib
+    m = net._EVSEs._v
+    k = z3.Const("rk!live", IdSort)
+    return And(maplib.keys_wf(m), FA([k], z3.Implies(z3.Select(m.dom, k), z3.And(z3.Select(m.arrs[0], k) != 0, s.alloc_ref(z3.Select(m.arrs[0], k)))),
+                                     patterns=[z3.Select(m.arrs[0], k)]))
+
+
 REG.contract(
     N + "_update_info_store", params=dict(self=Ref("ChargingNetwork")),
-    assumed="frame only: recomputes the five cached descriptions handed to schedulers (station index dictionary, max / min pilots, allowable rates, "
-            "continuity flags) from the registered EVSEs; touches nothing else (its functional contract belongs to C05)",
+    ret=Tup(Map(Id, Int), Seq(Real), Seq(Real), Seq(Seq(Real)), Seq(Bool)),
+    requires=[C("registry_live", lambda s: registry_live(s, s.self))],
     modifies=[("ChargingNetwork." + f, lambda s: [s.self]) for f in INFO_FIELDS],
-    ensures=[])
+    ensures=[C("C05.info_store", lambda old, new, ret: info_store_is_truthful(new, new.self), props=("C05", "C07", "C13")),
+             C("returns_the_five_cached_descriptions", lambda old, new, ret: _same_five(new, ret))],
+    loops={0: LoopSpec(invariant=lambda s: info_store_is_truthful(s, s.self, upto=s._k, allowable=s.allowable_rates, flags=s.is_continuous),
+                       locals=dict(allowable_rates=Seq(Seq(Real)), is_continuous=Seq(Bool)))},
+)
 
 
 def station(net, j):
@@ -189,14 +263,19 @@ def _re_post(old, new, ret):
                                            Eq(net1._voltages[net0._voltages.len], old.voltage), Eq(net1._phase_angles[net0._phase_angles.len], old.phase_angle),
                                            AllIdx(0, net0._voltages.len, lambda i: Eq(net1._voltages[i], net0._voltages[i]), name="rv"),
                                            AllIdx(0, net0._phase_angles.len, lambda i: Eq(net1._phase_angles[i], net0._phase_angles[i]), name="rp"))),
+        ("registry_stays_live", registry_live(new, net1)),
+        ("registry_stays_well_formed", Implies(net_wf(old, net0), net_wf(new, net1))),
     ]
 
 
 REG.contract(
     N + "register_evse", params=dict(self=Ref("ChargingNetwork"), evse=Ref("BaseEVSE"), voltage=Real, phase_angle=Real),
+    requires=[C("registry_live", lambda s: registry_live(s, s.self))],
     raises=[RaiseSpec("EVSERegistrationError", lambda s: Not(s.self.constraint_matrix.isnone), iff=True, unchanged=True)],
     modifies=[("ChargingNetwork." + f, lambda s: [s.self]) for f in INFO_FIELDS + ["_EVSEs", "_voltages", "_phase_angles"]],
-    ensures=[C("C12.register_evse", _re_post)],
+    ensures=[C("C12.register_evse", _re_post),
+             # C05 / C07: after every registration the descriptions cached for schedulers are what the registered stations advertise
+             C("C05.info_store_refreshed", lambda old, new, ret: info_store_is_truthful(new, new.self), props=("C05", "C07", "C12"))],
 )
 
 
@@ -242,4 +321,61 @@ def _ci_post(old, new, ret):
 REG.contract(
     CUR + "__init__", params=dict(self=Ref("Current"), loads=Seq(Id)), modifies=[("Current.coef", lambda s: [s.self]), ("Current.name", lambda s: [s.self])],
     ensures=[C("C12.current_from_station_list", _ci_post, props=("C12", "C16"))], recv="list",
+)
+
+
+# ---------------------------------------------------------------------------- the constructor: an empty, well-formed network
+REG.contract(
+    N + "__init__", params=dict(self=Ref("ChargingNetwork"), violation_tolerance=Real, relative_tolerance=Real),
+    modifies=[("ChargingNetwork." + f, lambda s: [s.self]) for f in INFO_FIELDS + ["_EVSEs", "_voltages", "_phase_angles", "constraint_matrix", "magnitudes",
+                                                                                   "constraint_index", "violation_tolerance", "relative_tolerance"]],
+    ensures=[C("C12.empty_network", lambda old, new, ret: [
+        ("no_station_no_constraint", And(new.self._EVSEs.keys.len == 0, new.self.constraint_matrix.isnone, new.self.magnitudes.len == 0,
+                                         new.self.constraint_index.len == 0, new.self._voltages.len == 0, new.self._phase_angles.len == 0)),
+        ("tolerances_as_given", And(Eq(new.self.violation_tolerance, old.violation_tolerance), Eq(new.self.relative_tolerance, old.relative_tolerance))),
+        ("registry_live", registry_live(new, new.self)),
+        ("table_aligned", table_wf(new, new.self))], props=("C12", "C06")),
+        C("C05.info_store_initialised", lambda old, new, ret: info_store_is_truthful(new, new.self), props=("C05", "C12"))],
+)
+
+
+# ---------------------------------------------------------------------------- sites.auto_acn.simple_acn: stations in the order given (C10 / C19 reproducibility)
+def _distinct_ids(ids, name):
+    a, b = z3.Int("a!" + name), z3.Int("b!" + name)
+    v = ids.v.arrs[0]
+    return FA([a, b], z3.Implies(z3.And(a >= 0, a < b, b < ids.len), ty.sel(v, a) != ty.sel(v, b)), patterns=[z3.MultiPattern(ty.sel(v, a), ty.sel(v, b))])
+
+
+def _registered_prefix(s, net, ids, upto, voltage):
+    """the first `upto` given ids are the registered stations, IN THE ORDER GIVEN, each at the given voltage and phase 0; no constraint yet"""
+    i = z3.Int("i!sacn")
+    return [
+        ("C10.stations_registered_in_the_order_given", And(net._EVSEs.keys.len == upto, FA([i], z3.Implies(z3.And(i >= 0, i < upto), station(net, i) == ty.sel(ids.v.arrs[0], i)),
+                                                                                         patterns=[station(net, i)]))),
+        ("voltages_and_phases", And(net._voltages.len == upto, net._phase_angles.len == upto,
+                                    FA([i], z3.Implies(z3.And(i >= 0, i < upto), z3.And(ty.sel(net._voltages.v.arrs[0], i) == voltage, ty.sel(net._phase_angles.v.arrs[0], i) == 0))))),
+        ("registry_well_formed", And(registry_live(s, net), net_wf(s, net))),
+    ]
+
+
+REG.contract(
+    "acnportal.acnsim.network.sites.auto_acn.simple_acn",
+    params=dict(station_ids=Seq(Id), evse_type=Id, voltage=Real, aggregate_cap=Real), ret=Ref("ChargingNetwork"),
+    requires=[C("distinct_station_ids", lambda s: _distinct_ids(s.station_ids, "sad")),
+              C("known_evse_type", lambda s: Or(Eq(s.evse_type, "BASIC"), Eq(s.evse_type, "AeroVironment"), Eq(s.evse_type, "ClipperCreek"))),
+              C("voltage_nonzero", lambda s: s.voltage != 0)],
+    modifies=["alloc", "warnings"] + [("ChargingNetwork." + f, "FRESH") for f in INFO_FIELDS + ["_EVSEs", "_voltages", "_phase_angles", "constraint_matrix", "magnitudes",
+                                                                                                 "constraint_index", "violation_tolerance", "relative_tolerance"]]
+             + [("BaseEVSE." + f, "FRESH") for f in ("_station_id", "_ev", "_current_pilot", "is_continuous")]
+             + [("EVSE._max_rate", "FRESH"), ("EVSE._min_rate", "FRESH"), ("FiniteRatesEVSE.allowable_rates", "FRESH"), ("Current.coef", "FRESH"), ("Current.name", "FRESH")],
+    ensures=[C("C10.simple_acn", lambda old, new, ret: _registered_prefix(new, new.obj(ret.ref, "ChargingNetwork"), old.station_ids, old.station_ids.len, old.voltage)[:2]
+               + [("one_aggregate_constraint_with_the_current_limit", And(new.obj(ret.ref, "ChargingNetwork").magnitudes.len == 1,
+                                                                          Eq(new.obj(ret.ref, "ChargingNetwork").magnitudes[0], (old.aggregate_cap / old.voltage) * 1000))),
+                  ("every_station_counts_once_in_the_aggregate", row_is(new.obj(ret.ref, "ChargingNetwork"), 0, lambda k: z3.RealVal(1)))],
+               props=("C10", "C19", "C12"))],
+    loops={0: LoopSpec(invariant=lambda s: _registered_prefix(s, s.network, s.arg("station_ids"), s._k, s.voltage)
+                       + [("no_constraint_yet", And(s.network.constraint_matrix.isnone, s.network.magnitudes.len == 0, s.network.constraint_index.len == 0))],
+                       modifies=["alloc"] + [("ChargingNetwork." + f, lambda s: [s.network]) for f in INFO_FIELDS + ["_EVSEs", "_voltages", "_phase_angles"]]
+                       + [("BaseEVSE." + f, "FRESH") for f in ("_station_id", "_ev", "_current_pilot", "is_continuous")]
+                       + [("EVSE._max_rate", "FRESH"), ("EVSE._min_rate", "FRESH"), ("FiniteRatesEVSE.allowable_rates", "FRESH")])},
 )
